@@ -35,6 +35,7 @@ type Case struct {
 	Initial  string  `json:"initial"` // none | node1-long | node3-expired
 	Programs [][]int `json:"programs"`
 	Lag      bool    `json:"lag"`
+	Snap     bool    `json:"snapshot_catch_up,omitempty"` // lagging replicas move forward for reads by snapshot install
 	Choices  []int   `json:"choices,omitempty"`
 	Trace    string  `json:"trace,omitempty"`
 }
@@ -55,9 +56,13 @@ type world struct {
 func mk(c Case) (sched.Scenario, *world) {
 	n := len(c.Programs)
 	w := &world{c: metastore.NewCluster(n, c.Lag)}
+	w.c.SnapReads = c.Snap
 	switch c.Initial {
 	case "node1-long":
 		b, _ := json.Marshal(table.Lease{ID: 1, Until: time.Now().Add(time.Hour)})
+		w.c.Seed(kv.Update{Op: kv.UpdateOpSet, KVPair: kv.Pair{Key: leaseKey, Value: string(b)}})
+	case "node1-expired":
+		b, _ := json.Marshal(table.Lease{ID: 1, Until: time.Now().Add(-time.Hour)})
 		w.c.Seed(kv.Update{Op: kv.UpdateOpSet, KVPair: kv.Pair{Key: leaseKey, Value: string(b)}})
 	case "node3-expired":
 		b, _ := json.Marshal(table.Lease{ID: 3, Until: time.Now().Add(-time.Hour)})
@@ -107,6 +112,12 @@ func (w *world) key() string {
 type viol struct{ sig, detail string }
 
 func check(x sched.Exec, w *world, c Case) (vs []viol, outcome string) {
+	if strings.Contains(x.Panic, "metadata-replicas-disagree-under-batching") {
+		return []viol{{"metadata-replicas-disagree-under-batching", x.Panic}}, "abnormal"
+	}
+	if w.c.Divergence != "" {
+		return []viol{{"metadata-replicas-disagree-under-batching", w.c.Divergence}}, "abnormal"
+	}
 	if x.Deadlock || x.Livelock || x.Panic != "" || x.Diverged != "" {
 		kind := "abnormal"
 		if x.Deadlock {
@@ -235,7 +246,7 @@ func exploreCase(r *evid.Run, c Case, maxBound int) {
 				cc.Trace = sched.TraceStr(x)
 				r.Violate(v.sig, v.detail+" | trace: "+cc.Trace, cc)
 			}
-			r.Outcome(fmt.Sprint(c.Initial, c.Programs, c.Lag)+outcome, strings.Contains(outcome, "S") || strings.Contains(outcome, "D"))
+			r.Outcome(fmt.Sprint(c.Initial, c.Programs, c.Lag, c.Snap)+outcome, strings.Contains(outcome, "S") || strings.Contains(outcome, "D"))
 			return outcome
 		},
 		MaxBound: maxBound,
@@ -260,14 +271,14 @@ func exploreCase(r *evid.Run, c Case, maxBound int) {
 
 func Run(r *evid.Run) {
 	r.Check = "c15"
-	initials := []string{"none", "node1-long", "node3-expired"}
-	r.Rule("scenarios = initial lease record {none, held by node 1 long, held by node 3 already expired} x per-node programs of 1-2 calls from {lease long, lease with an already-expired duration, return} for 2 nodes (all 144 program pairs) and 3 nodes (quick: 1 call each; thorough: first two nodes up to 2 calls, third 1 call); real table.Manager.LeaseTable/ReturnTable over real kv.LFSM replicas sharing one log; scheduling points at every store read and write, plus the replica lag of every stale read as a data choice; ALL interleavings (preemption bound raised until the space is exhausted). Oracle on the committed log in order: a successful lease write never replaces an unexpired lease of another node, a successful delete only removes the caller's lease, call results agree with what was committed, at most one believer. Non-trivial: at least one successful lease write/delete; distinct = distinct (scenario, commit order + call results)")
+	initials := []string{"none", "node1-long", "node3-expired", "node1-expired"}
+	r.Rule("scenarios = initial lease record {none, held by node 1 long, held by node 1 already expired, held by node 3 already expired} x per-node programs of 1-2 calls from {lease long, lease with an already-expired duration, return} for 2 nodes (all program pairs) and 3 nodes (quick: 1 call each; thorough: first two nodes up to 2 calls, third 1 call); real table.Manager.LeaseTable/ReturnTable over real kv.LFSM replicas sharing one log; scheduling points at every store read and write, plus the replica lag of every stale read as a data choice; every 2-node scenario and every 3-node scenario with one call per node is explored a second time with lagging replicas moving forward for reads by installing a snapshot of the log prefix (real PrepareSnapshot/SaveSnapshot/RecoverFromSnapshot) while catch-up before a node's own proposal stays log replay in one apply call; replicas must agree on the result of every log position; ALL interleavings (preemption bound raised until the space is exhausted). Oracle on the committed log in order: a successful lease write never replaces an unexpired lease of another node, a successful delete only removes the caller's lease, call results agree with what was committed, at most one believer. Non-trivial: at least one successful lease write/delete; distinct = distinct (scenario, commit order + call results)")
 	p2 := programs(2)
 	var cases []Case
 	for _, ini := range initials {
 		for _, a := range p2 {
 			for _, b := range p2 {
-				cases = append(cases, Case{Initial: ini, Programs: [][]int{a, b}, Lag: true})
+				cases = append(cases, Case{Initial: ini, Programs: [][]int{a, b}, Lag: true}, Case{Initial: ini, Programs: [][]int{a, b}, Lag: true, Snap: true})
 			}
 		}
 		p1 := programs(1)
@@ -280,6 +291,9 @@ func Run(r *evid.Run) {
 			for _, b := range firsts {
 				for _, cc := range third {
 					cases = append(cases, Case{Initial: ini, Programs: [][]int{a, b, cc}, Lag: true})
+					if len(a) == 1 && len(b) == 1 {
+						cases = append(cases, Case{Initial: ini, Programs: [][]int{a, b, cc}, Lag: true, Snap: true})
+					}
 				}
 			}
 		}
